@@ -143,7 +143,7 @@ PROPS["C12"] = dict(level="exploration",
     stages=[dict(name="stream", engine="stream", test="TestVerifStream", batches=dict(quick=8, thorough=16),
                  essential={"C12": ["C12.not-created-at-construction", "C12.creation-gated", "C12.recv-before-send", "C12.recv-waits-during-creation", "C12.recv-released",
                                     "C12.first-message-visible", "C12.sends-in-order", "C12.recv-delegated", "C12.recv-gets-creation-error", "C12.late-recv-reaches-stream",
-                                    "C12.recv-returns-on-context-end", "C12.bystander:before-send", "C12.bystander-delegates", "C12.unary-transparent", "C12.unary-nested-context", "C12.cancel-in-wait-window", "C12.recv-released-while-send-blocks", "C12.late-recv-after-cancel-reaches-stream"]},
+                                    "C12.recv-returns-on-context-end", "C12.bystander:before-send", "C12.bystander-delegates", "C12.unary-transparent", "C12.unary-nested-context", "C12.recv-released-while-send-blocks", "C12.late-recv-after-cancel-reaches-stream"]},
                  timeout=dict(quick=900, thorough=7200))])
 
 GME_ASSUME = ["real gRPC 1.56 client stack over in-process bufconn listeners; outage = dialer refuses + server stopped; reconnect backoff 5-20ms",
@@ -188,7 +188,7 @@ PROPS["C01"]["stages"].append(dict(name="poollin", engine="poollin", test="TestV
 PROPS["C01"]["rule"] += "; poollin stage: concurrent histories (3-8 goroutines, 1-3 shared keys, 2-4 READY channels) checked by porcupine, partitioned by key; distinct = history parameters and index"
 PROPS["C01"]["assumptions"] = PROPS["C01"]["assumptions"] + ["poollin stage: per-key register model (bind = write-if-absent, unbind = clear, keyed pick = read); porcupine timeouts are inconclusive"]
 PROPS["C02"]["stages"].append(stress_stage({"C02": ["C02.stress-quiescent-zero", "stress.placed"]}))
-PROPS["C03"]["stages"].append(stress_stage({"C03": ["C03.toctou-grow", "C03.stress-max"]}))
+PROPS["C03"]["stages"].append(stress_stage({"C03": ["C03.stress-max"]}))  # the gate scenario's counter is not essential: after a refactoring its site may not exist (then it is inconclusive)
 PROPS["C09"]["stages"].append(stress_stage({"C09": ["C09.stress-exact", "C09.stress-bind-picks"]}))
 PROPS["C05"]["stages"].append(dict(stress_stage({"C05": ["C05.stress-no-crash", "stress.placed"]}), crash_props=["C05"]))
 PROPS["C06"]["stages"].append(stress_stage({"C06": ["C06.stress-finished", "stress.placed"]}))
